@@ -13,7 +13,7 @@ open Spine Spine.Disp Spine.TdK
 structure FrameE (k : Nat) (ent : List Nat) (w w' : W) : Prop where
   loc : w'.loc = w.loc
   data : w'.data = w.data
-  cfg : w'.cfg = w.cfg
+  cfg : w'.cfg = w.cfg ∧ w'.nmData = w.nmData
   req : (w'.peers k).req = (w.peers k).req
   feats : (w'.peers k).feats = (w.peers k).feats.filter (fun f => f.ent ≠ ent)
   binds : ∃ keep : Disp.Entry → Bool, (∀ b, ¬(b.2.1 = k ∧ b.2.2.1 = ent) → keep b = true) ∧ w'.binds = w.binds.filter keep
@@ -52,7 +52,7 @@ theorem gateOk_frameE (lf : LF) : gateOk w' k lf d = gateOk w k lf d := by
 omit hs in
 theorem replyVal_frameE (lf : LF) (h4 : d.fn ≠ 904) (h5 : d.fn ≠ 905) : replyVal w' k lf d = replyVal w k lf d := by
   unfold replyVal
-  rw [hf.data]
+  rw [hf.data, hf.cfg.2]
   simp [h4, h5]
 
 theorem responses_frameE (lf : LF) (rf : RF) (h4 : d.fn ≠ 904) (h5 : d.fn ≠ 905) :
@@ -68,7 +68,7 @@ theorem wantsRead_frameE (lf : LF) (rf : RF) : wantsRead w' k lf rf d = wantsRea
 
 theorem crashes_frameE (lf : LF) (rf : RF) (h4 : d.fn ≠ 904) (h5 : d.fn ≠ 905) :
     crashes w' k lf rf d = crashes w k lf rf d := by
-  unfold crashes; rw [responses_frameE hf hs lf rf h4 h5, hf.cfg]
+  unfold crashes; rw [responses_frameE hf hs lf rf h4 h5, hf.cfg.1]
 
 end
 
@@ -116,7 +116,7 @@ theorem serve_cmd_frameE {k : Nat} {ent : List Nat} {w w' : W} (hf : FrameE k en
     have hd : dstF w' d = dstF w d := by unfold dstF; rw [hf.loc]
     rw [hd]
     cases dstF w d with
-    | none => dsimp only; rw [hf.cfg]
+    | none => dsimp only; rw [hf.cfg.1]
     | some lf =>
       dsimp only
       have hreq : (answered (w'.peers k) d.ref).req = (answered (w.peers k) d.ref).req := by
@@ -175,7 +175,7 @@ theorem world_dropEntity_frameE (x : Ctx) (hx : x.wf) (F : Facts) (hF : F.ok = t
     have : s.conns.find? (fun x => x.ski == k) = some c := hk
     rw [this]
     simp [dropConnEnt, hski]
-  refine ⟨rfl, rfl, rfl, ?_, ?_, ⟨fun b => !(b.2.1 == k && b.2.2.1 == ent), ?_, ?_⟩,
+  refine ⟨rfl, rfl, ⟨rfl, rfl⟩, ?_, ?_, ⟨fun b => !(b.2.1 == k && b.2.2.1 == ent), ?_, ?_⟩,
     ⟨fun b => !(b.2.1 == k && b.2.2.1 == ent), ?_, ?_⟩⟩
   · simp only [world, peerOf, hself, hk]
   · simp only [world, peerOf, hself, hk]
